@@ -154,12 +154,35 @@ def modular_schema(rng):
 
 
 def dup_root_models(payload):
+    """two named scalars / arrays that are the same type once constraints are left out (they are left out of dataclass / TypedDict / msgspec types)"""
+    CON = ("minimum", "maximum", "exclusiveMinimum", "exclusiveMaximum", "multipleOf", "minLength", "maxLength", "pattern", "minItems", "maxItems",
+           "description", "title", "default")
+
+    def strip(v):
+        if isinstance(v, dict):
+            return {k: strip(x) for k, x in v.items() if k not in CON}
+        if isinstance(v, list):
+            return [strip(x) for x in v]
+        return v
     doc = payload[0] if isinstance(payload, tuple) else payload
     if not isinstance(doc, dict):
         return False
-    defs = [json.dumps(v, sort_keys=True) for v in (doc.get("definitions") or {}).values()
-            if isinstance(v, dict) and v.get("type") != "object" and "properties" not in v and "allOf" not in v]
-    return len(defs) != len(set(defs))
+    roots = [v for v in (doc.get("definitions") or {}).values()
+             if isinstance(v, dict) and v.get("type") != "object" and "properties" not in v and "allOf" not in v]
+
+    def walk(x):   # constrained scalars below items become root models of their own
+        if isinstance(x, dict):
+            it = x.get("items")
+            if isinstance(it, dict) and it.get("type") in ("string", "integer", "number") and any(k in it for k in CON):
+                roots.append(it)
+            for v in x.values():
+                walk(v)
+        elif isinstance(x, list):
+            for v in x:
+                walk(v)
+    walk(doc)
+    keys = [json.dumps(strip(v), sort_keys=True) for v in roots]
+    return len(keys) != len(set(keys))
 
 
 def in_known_class(family, payload, kind, opts, formatters):
